@@ -91,6 +91,65 @@ void family_future() {
     }
 }
 
+// ------------------------------------------------------------------ suspend points carrying up to three ready coroutines
+// The waiters' frames are placed (non-heap); the party that resolves is ordinary code, a coroutine under a ready queue, or a
+// generator body stepped from ordinary code (a coroutine that runs with NO ready queue installed on its thread).
+cocls::with_allocator<cocls::placement_alloc, cocls::async<void>> sp_resolver(cocls::placement_alloc &, cocls::promise<Payload> &p, int how) {
+    if (how == 0) co_await p(Payload{7, 14, 21});                 // awaited: transfer into one carried coroutine, the rest and this one are queued
+    else if (how == 1) p(Payload{7, 14, 21});                     // discarded inside a coroutine: all carried coroutines are queued
+    else { auto sp = p(Payload{7, 14, 21}); co_await cocls::pause(); co_await sp; }
+    dsim::cell_add(OBS, 1);
+}
+cocls::generator<int> sp_resolver_gen(cocls::promise<Payload> &p, int how) {
+    if (how == 0) co_await p(Payload{7, 14, 21}); else p(Payload{7, 14, 21});
+    dsim::cell_add(OBS, 1);
+    co_yield 1;
+}
+void family_suspend_point() {
+    int k = 1 + dsim::choose(3);                  // ready coroutines carried by the suspend point: up to three
+    int ctx = dsim::choose(4), how = dsim::choose(3);
+    int k2 = ctx == 1 ? (int)dsim::choose(4 - k) : 0;    // merging two suspend points: still at most three handles together
+    dsim::plan_note("suspend point: carried=%d+%d ctx=%d how=%d", k, k2, ctx, how);
+    alignas(16) static Slot slots[6]; alignas(16) static Slot rslot;
+    cocls::future<Payload> f1, f2; auto p1 = f1.get_promise(); auto p2 = f2.get_promise();
+    {
+        Region r("awaiting a future (placed frames)");
+        for (int i = 0; i < k; i++) { cocls::placement_alloc pa(&slots[i]); waiter_placed(pa, f1, i & 1).detach(); }
+        for (int i = 0; i < k2; i++) { cocls::placement_alloc pa(&slots[3 + i]); waiter_placed(pa, f2, i & 1).detach(); }
+        r.expect(0);
+    }
+    long want = k + k2;
+    switch (ctx) {
+    case 0: { Region r("resolving from ordinary code, the suspend point (up to three ready coroutines) is discarded"); p1(Payload{7, 14, 21}); r.expect(0); break; }
+    case 1: {
+        Region r("holding, moving and merging suspend points that carry up to three ready coroutines together");
+        cocls::suspend_point<void> a = p1(Payload{7, 14, 21});
+        cocls::suspend_point<void> b = p2(Payload{7, 14, 21});
+        if (a.size() != (std::size_t)k || b.size() != (std::size_t)k2) dsim::fail("C20.payload", "suspend points carry %zu and %zu coroutines, expected %d and %d", a.size(), b.size(), k, k2);
+        cocls::suspend_point<void> c(std::move(a));
+        if (how == 0) c << std::move(b); else if (how == 1) { b << std::move(c); c = std::move(b); } else { cocls::suspend_point<void> d; d = std::move(b); c << std::move(d); }
+        if (c.size() != (std::size_t)(k + k2)) dsim::fail("C20.payload", "merged suspend point carries %zu coroutines, expected %d", c.size(), k + k2);
+        c.clear();
+        r.expect(0); break; }
+    case 2: {
+        cocls::placement_alloc pa(&rslot);
+        Region r("resolving inside a coroutine that runs under a ready queue (suspend point awaited / discarded / held over a pause)");
+        sp_resolver(pa, p1, how).join();
+        r.expect(0); want++; break; }
+    default: {
+        Region c("creating a generator");
+        auto g = sp_resolver_gen(p1, how & 1);
+        c.expect(1);
+        Region r("resolving inside a generator body stepped from ordinary code: the coroutine awaits / discards the suspend point with no ready queue installed");
+        bool more = g.next();
+        r.expect(0);
+        if (!more || g.value() != 1) dsim::fail("C20.payload", "generator did not reach its yield");
+        want++; break; }
+    }
+    if (ctx != 1 && k2 == 0) { Region r("dropping an unused promise"); { auto q = std::move(p2); } r.expect(0); }
+    if (dsim::cell_get(OBS) != want) dsim::fail("C20.payload", "%ld of %ld parties finished", dsim::cell_get(OBS), want);
+}
+
 // ------------------------------------------------------------------ mutex
 cocls::with_allocator<cocls::placement_alloc, cocls::async<void>> mx_placed(cocls::placement_alloc &, cocls::mutex &mx, int rounds, int rel) {
     for (int r = 0; r < rounds; r++) { auto own = co_await mx.lock(); dsim::yield(); if (rel == 0) own.release(); else if (rel == 1) co_await own.release(); }
@@ -140,9 +199,10 @@ void family_generator() {
 }
 
 void dsim_scenario() {
-    switch (dsim::choose(3)) {
+    switch (dsim::choose(4)) {
     case 0: family_future(); break;
     case 1: family_mutex(); break;
+    case 3: family_suspend_point(); break;
     default: family_generator(); break;
     }
 }
